@@ -1566,6 +1566,8 @@ func (sfe SiafundElement) Copy() SiafundElement {
 // element's memory is copied.
 func (fce FileContractElement) Copy() FileContractElement {
 	fce.StateElement = fce.StateElement.Copy()
+	fce.FileContract.ValidProofOutputs = slices.Clone(fce.FileContract.ValidProofOutputs)
+	fce.FileContract.MissedProofOutputs = slices.Clone(fce.FileContract.MissedProofOutputs)
 	return fce
 }
 
@@ -1580,5 +1582,6 @@ func (v2fce V2FileContractElement) Copy() V2FileContractElement {
 // element's memory is copied.
 func (ae AttestationElement) Copy() AttestationElement {
 	ae.StateElement = ae.StateElement.Copy()
+	ae.Attestation.Value = slices.Clone(ae.Attestation.Value)
 	return ae
 }
